@@ -484,6 +484,11 @@ contract(C + 'Writer.addFixSeq',
              'ValueError iff some element is outside [0, 256**length); old content stays a prefix')
 
 
+def multiple_lemma(a, b):
+    """pure arithmetic: a*b is a multiple of b and divides back to a"""
+    return S.implies(S.And(a >= 0, b >= 1), S.And((a * b) % b == 0, div(a * b, b) == a))
+
+
 def varseq_fits(ns):
     return S.And(S.len_(ns.seq) * ns.length < S.pow256(ns.lengthLength), all_fit(ns.seq, ns.length))
 
@@ -496,8 +501,11 @@ contract(C + 'Writer.addVarSeq',
              varseq_fits(ns),
              S.len_(new) == b0 + ns.lengthLength + n, S.is_bytes(new),
              header_is(new, b0, ns.lengthLength, n),
+             # the byte-count is a multiple of the element size and divides back to the element count
+             S.implies(ns.length >= 1, S.And(n % ns.length == 0, div(n, ns.length) == S.len_(ns.seq))),
              region_decodes(new, b0 + ns.lengthLength, ns.seq, ns.length),
              prefix_kept(ns)))(wbytes(ns), S.len_(wbytes(ns.old)), S.len_(ns.seq) * ns.length),
+         lemmas=[(multiple_lemma, lambda ns: (S.len_(ns.seq), ns.length))],
          raises={ValueError: ('iff', lambda ns: S.Not(varseq_fits(ns)))},
          exc_ensures=prefix_kept,
          loops={1: LoopSpec(inv_addfixseq, variant=lambda ns: S.len_(ns.seq) - ns.idx,
@@ -549,8 +557,10 @@ def _vartupleseq_contract(arity):
             ok(ns),
             S.len_(new) == b0 + ns.lengthLength + n, S.is_bytes(new),
             header_is(new, b0, ns.lengthLength, n),
+            S.implies(ns.length >= 1, S.And(n % (ns.length * arity) == 0, div(n, ns.length * arity) == S.len_(ns.seq))),
             tuples_region(new, b0 + ns.lengthLength, ns.seq, arity, ns.length),
             prefix_kept(ns)))(wbytes(ns), S.len_(wbytes(ns.old)), S.len_(ns.seq) * arity * ns.length),
+        lemmas=[(multiple_lemma, lambda ns: (S.len_(ns.seq), ns.length * arity))],
         raises={ValueError: ('iff', lambda ns: S.Not(ok(ns)))},
         exc_ensures=prefix_kept,
         loops={1: ls, 2: ls},
